@@ -563,4 +563,22 @@ def soaOnlyNotSecure (m : Msg) : Bool :=
 def bogusNegativeWithoutSoa (m : Msg) : Bool :=
   m.an.isEmpty && !(m.ns.any (·.rtype == tSOA)) && m.ns.any (·.proof == .bogus)
 
+/-- the answer section holds a record of the queried type, or a CNAME, at the query name -/
+def answersQuestion (q : Query) (m : Msg) : Bool :=
+  m.an.any fun r => r.name == q.name && (r.rtype == q.qtype || r.rtype == 5)
+
+/-- `C07.AnswerSectionWithoutAnswerAccepted` (on the validated message): a non-empty answer section that does
+not answer the question, nothing marked Bogus -/
+def answerSectionWithoutAnswer (q : Query) (m : Msg) : Bool :=
+  !m.an.isEmpty && !answersQuestion q m && !((m.an ++ m.ns).any (·.proof == .bogus))
+
+/-- `C07.InsecureAuthorityAcceptsDenial`: an empty answer section with an authority section that is Insecure
+throughout (exit 1 of `ok_exits`) -/
+def insecureAuthorityDenial (m : Msg) : Bool :=
+  m.an.isEmpty && !m.ns.isEmpty && m.ns.all (·.proof == .insecure)
+
+/-- `C07.SoaAnswerWithoutSoaNotServfail`: a SOA query whose non-empty answer section comes without any SOA -/
+def soaAnswerWithoutSoa (q : Query) (m : Msg) : Bool :=
+  q.qtype == tSOA && !m.an.isEmpty && !(m.all.any (·.rtype == tSOA))
+
 end HickoryVerif.Chain
